@@ -31,7 +31,7 @@ class Stop(Exception):
     pass
 
 
-def interp_cfg(scfg, oracle, limit=3000):
+def interp_cfg(scfg, oracle, limit=25000):      # above the line-event budget of the reference run (a block visit costs at least one line event there)
     env = {'o': oracle}
     # the genesis block is named 0; when it was pruned as empty the entry is the next block created
     name = '0' if '0' in scfg.graph else min(scfg.graph, key=lambda k: int(k) if k.isdigit() else 10 ** 9)
@@ -236,17 +236,20 @@ def check_inside_r8(src, seeds=(1, 2, 3, 4, 5, 6)):
                 return {'kind': 'r8-region:hoisted-operand-skipped', 'key': str(k)}
         return None
     for sd in seeds:
-        ref = run_const(fn, sd)
+        # the step limit counts traced events: the reference must stay far below the budget given to the translation and to
+        # the CFG interpreter (whose own lines are traced too), otherwise a 'timeout' of the latter is an artefact of the
+        # harness - such seeds are inconclusive and skipped
+        ref = run_const(fn, sd, limit=2500)
         if ref[0][0] == 'timeout':
             continue
         if tf is not None and out['C07'][0] == 'ok':
-            d = differs(ref, run_const(tf, sd))
+            d = differs(ref, run_const(tf, sd, limit=500000))
             if d:
                 out['C07'] = ('fail', dict(d, seed=sd))
         if out['C08'][0] == 'ok':
             try:
                 g = AST2SCFGTransformer(src).transform_to_SCFG()
-                d = differs(ref, run_const(lambda o: interp_cfg(g, o), sd))
+                d = differs(ref, run_const(lambda o: interp_cfg(g, o), sd, limit=500000))
                 if d:
                     out['C08'] = ('fail', dict(d, seed=sd))
             except NotImplementedError:
